@@ -134,6 +134,7 @@ def run_contract_case(I, contract, case, timeout_ms=None, registry=None):
         res["file"] = f.module.path
         res["lineno"] = f.node.lineno
         I.under_test = contract.name
+        contract.current_case = case          # loop specifications / local contracts may depend on the case
         I.inline = set(contract.inline)
         if hasattr(contract, "local_contracts"):
             I.contracts = dict(I.contracts)
